@@ -74,6 +74,7 @@ pub struct PollOut {
 
 /// One receiver poll through the real `try_get_packet`.
 pub fn poll(sim: &Sim, who: &str, rx: &mut AnyLink, wire: &WireRef) -> PollOut {
+    sim.idle_gap();
     let (cursor_before, frames_before) = {
         let mut w = wire.borrow_mut();
         w.begin_poll();
@@ -121,6 +122,7 @@ pub fn send_on(sim: &Sim, who: &str, tx: &mut AnyLink, p: &Packet, rxwire: &Wire
 
 /// One send through the real `try_send_packet`.
 pub fn send(sim: &Sim, who: &str, tx: &mut AnyLink, p: &Packet) -> Result<Result<(), InterfaceError>, Crash> {
+    sim.idle_gap();
     sim.event(EV_SEND, hash_packet(p), 0, || {
         format!("{}.try_send_packet({})", who, show_packet(p))
     });
